@@ -660,6 +660,8 @@ theorem skipBits_ok (r : R) (n : Nat) (hI : RInv r) (hfit : r.pos + n ≤ 8 * r.
   by_cases hn0 : n = 0
   · subst hn0; exact ⟨r, by simp, by simp, hI, rfl, rfl⟩
   rw [if_neg hn0]
+  have hcur : ¬ r.cur ≥ r.maxDataLen := by omega
+  rw [if_neg hcur]
   simp only
   by_cases hsmall : n < 8 - r.bitno
   · have ht : min n (8 - r.bitno) = n := by omega
@@ -672,6 +674,53 @@ theorem skipBits_ok (r : R) (n : Nat) (hI : RInv r) (hfit : r.pos + n ≤ 8 * r.
     obtain ⟨c', b', e, hp, hb'⟩ := skipLoop_ok r (n - (8 - r.bitno)) (r.cur + 1) (by omega)
     rw [e]
     exact ⟨{ r with cur := c', bitno := b' }, rfl, by simp [R.pos]; omega, ⟨hb'⟩, rfl, rfl⟩
+
+theorem skipLoopF_past (r : R) : ∀ (f left cur : Nat), left ≤ f → cur < r.maxDataLen →
+    8 * cur + left > 8 * r.maxDataLen → (r.skipLoopF f cur left).1 = -1 := by
+  intro f
+  induction f with
+  | zero => intro left cur hf hc hp; omega
+  | succ f ih =>
+    intro left cur hf hc hp
+    unfold R.skipLoopF
+    have hl0 : ¬ left = 0 := by omega
+    rw [if_neg hl0]
+    simp only
+    by_cases h8 : left < 8
+    · omega
+    · have ht : min left 8 = 8 := by omega
+      rw [ht]
+      simp only [if_true]
+      by_cases hg : cur + 1 ≥ r.maxDataLen ∧ left - 8 > 0
+      · rw [if_pos hg]
+      · rw [if_neg hg]
+        exact ih (left - 8) (cur + 1) (by omega) (by omega) (by omega)
+
+/-- **C11, skips past the end report an error.** -/
+theorem skipBits_past_end (r : R) (n : Nat) (hI : RInv r) (hn0 : 0 < n)
+    (hpast : r.pos + n > 8 * r.maxDataLen) : (r.skipBits n).1 = -1 := by
+  have hb := hI.bitno_lt
+  unfold R.pos at hpast
+  unfold R.skipBits
+  rw [if_neg (by omega)]
+  by_cases hcur : r.cur ≥ r.maxDataLen
+  · rw [if_pos hcur]
+  · rw [if_neg hcur]
+    simp only
+    by_cases hsmall : n < 8 - r.bitno
+    · omega
+    · have ht : min n (8 - r.bitno) = 8 - r.bitno := by omega
+      rw [ht, if_pos (by omega)]
+      by_cases hg : r.cur + 1 ≥ r.maxDataLen ∧ n - (8 - r.bitno) > 0
+      · rw [if_pos hg]
+      · rw [if_neg hg]
+        have := skipLoopF_past r (n - (8 - r.bitno)) (n - (8 - r.bitno)) (r.cur + 1) (Nat.le_refl _) (by omega) (by omega)
+        unfold R.skipLoop
+        revert this
+        generalize r.skipLoopF (n - (8 - r.bitno)) (r.cur + 1) (n - (8 - r.bitno)) = q
+        intro h
+        obtain ⟨e, c, bn⟩ := q
+        simpa using h
 
 theorem R.ext_pos (a b : R) (ha : RInv a) (hb : RInv b) (hd : a.data = b.data)
     (hm : a.maxDataLen = b.maxDataLen) (hp : a.pos = b.pos) : a = b := by
